@@ -774,6 +774,97 @@ def _may_depend_on(fn, expr, pname, depth=4):
     return False
 
 
+def _fract_flag_table(r, mod_stmt, dot_stmt):
+    """(ok, detail) or None.  The name that guards both the wrap and the cell product, as a function of which coordinate tags the block has."""
+    from verif_sa.pe import PE, P
+    flags = []
+    for s_ in (mod_stmt, dot_stmt):
+        f_ = [t.id for t, pol, k in norm_guards(r, s_) if pol and isinstance(t, ast.Name)]
+        flags.append(set(f_))
+    common_flags = flags[0] & flags[1]
+    if len(common_flags) != 1:
+        return None
+    flag = next(iter(common_flags))
+    pe = PE({p: P(p) for p in r.params})
+    try:
+        pe.run(r.node.body, [])
+    except Exception:
+        return None
+    ft = pe.env.get(flag)
+    # the coordinate columns: the local(s) whose term reads block[<tag>] for coordinate tags
+    cands = [v for k, v in pe.env.items() if k != flag and isinstance(v, tuple) and ("_atom_site_fract_x" in repr(v) or "_atom_site_cartn_x" in repr(v)) and "sub[]" in repr(v)]
+    if ft is None or not cands:
+        return None
+    coords_t = min(cands, key=lambda v: len(repr(v)))
+
+    class U(Exception):
+        pass
+
+    def atom(t):
+        if isinstance(t, tuple) and t and t[0] == "call" and t[1] == "has_all_tags":
+            txt = repr(t)
+            c, f = "_atom_site_cartn_x" in txt, "_atom_site_fract_x" in txt
+            if c != f:
+                return "C" if c else "F"
+        return None
+
+    def val(t, A):
+        a = atom(t)
+        if a is not None:
+            return A[a]
+        if not isinstance(t, tuple):
+            raise U()
+        if t[0] == "const":
+            return t[1]
+        if t[0] == "not":
+            return not val(t[1], A)
+        if t[0] == "and":
+            return all(val(x, A) for x in t[1:])
+        if t[0] == "or":
+            return any(val(x, A) for x in t[1:])
+        if t[0] in ("phi", "ifexp"):
+            return val(t[2] if val(t[1], A) else t[3], A)
+        raise U()
+
+    def families(t, A):
+        """coordinate tag families still reachable in t once its conditionals are resolved"""
+        out = set()
+        if not isinstance(t, tuple):
+            return out
+        if t and t[0] in ("phi", "ifexp") and len(t) == 4:
+            try:
+                c = val(t[1], A)
+            except U:
+                return families(t[2], A) | families(t[3], A)
+            return families(t[2] if c else t[3], A)
+        if t and t[0] == "const" and isinstance(t[1], str):
+            if t[1].startswith("_atom_site_fract_"):
+                out.add("fract")
+            elif t[1].startswith("_atom_site_cartn_"):
+                out.add("cart")
+            return out
+        for x in t:
+            out |= families(x, A)
+        return out
+    try:
+        for C in (True, False):
+            for F in (True, False):
+                if not C and not F:
+                    continue
+                A = {"C": C, "F": F}
+                fam = families(coords_t, A)
+                if len(fam) != 1:
+                    return None
+                fl = bool(val(ft, A))
+                if fl != (fam == {"fract"}):
+                    return False, "under `%s`, which is %s when the block has %s and the %s columns are the ones read: %s" % (
+                        flag, fl, " and ".join(n_ for n_, b_ in (("Cartesian tags", C), ("fractional tags", F)) if b_), next(iter(fam)),
+                        "Cartesian coordinates are wrapped modulo 1 and multiplied with the cell" if fl else "fractional coordinates are used as if they were Cartesian")
+        return True, "flag agrees with the columns read"
+    except U:
+        return None
+
+
 def _cif_number_helper(outer, tf):
     """(ok, detail) for a helper of the form `return float(<regex operation on the argument>)`, or None when it has another form."""
     import re as _re
@@ -993,8 +1084,19 @@ def E2_cif_tags(repo, clause):
                             return True
         return False
     g_ok = ok and all(_fract_flag_guard(s) for s in (mods[0], dots[0]))
-    obs.append(Ob("E2", clause, r, mods[0] if mods else r.node, ok and g_ok,
-                  "fractional coordinates are wrapped modulo 1 before the multiplication with the cell, and only for fractional input", slot="wrap-before-product"))
+    # the flag that guards wrap and product is TRUE exactly when the fractional columns are the ones that were read: decided on the partial evaluator's
+    # terms for the flag and for the coordinate columns over the four combinations of (Cartesian tags present, fractional tags present)
+    flag_tab = None
+    if ok and not g_ok:
+        flag_tab = _fract_flag_table(r, mods[0], dots[0])
+        if flag_tab is not None and flag_tab[0]:
+            g_ok = True
+    if flag_tab is not None and not flag_tab[0]:
+        obs.append(Ob("E2", clause, r, mods[0], False, "fractional coordinates are wrapped and multiplied with the cell %s" % flag_tab[1], slot="wrap-before-product", positive="robust"))
+    else:
+        obs.append(Ob("E2", clause, r, mods[0] if mods else r.node, ok and g_ok,
+                  "fractional coordinates are wrapped modulo 1 before the multiplication with the cell, and only for fractional input", slot="wrap-before-product",
+                  undecided=ok and not g_ok))
     if dots:
         c = dots[0].value
         wrapped = mods[0].target.id if mods and isinstance(mods[0], ast.AugAssign) and isinstance(mods[0].target, ast.Name) else None
@@ -1044,11 +1146,53 @@ def E2_cif_tags(repo, clause):
             if "H-M" in ast.unparse(t):
                 p1 = (s, t, pol)
     ok = False
+    sem_p1 = None
     if p1:
         s, t, pol = p1
         txt = ast.unparse(t)
         ok = pol and "has_key" in txt and "not in" in txt and "'P1'" in txt and "'P 1'" in txt
-    obs.append(Ob("E2", clause, r, p1[0] if p1 else r.node, ok, "a declared space group other than P1 / P 1 raises", slot="non-p1-rejected"))
+        # decide the path condition of the raise on representatives: tag present / absent x space group in {P1, "P 1", P 21/c, Fm-3m}
+        from .common import eval_small, Undecidable
+        import copy as _copy
+
+        class _AbsSG(ast.NodeTransformer):
+            def visit_Call(self, n):
+                if isinstance(n.func, ast.Attribute) and n.func.attr in ("has_key", "__contains__") and n.args and "H-M" in str(const_value(n.args[0])):
+                    return ast.copy_location(ast.Name(id="HAS", ctx=ast.Load()), n)
+                if isinstance(n.func, ast.Attribute) and n.func.attr == "get" and n.args and "H-M" in str(const_value(n.args[0])):
+                    return ast.copy_location(ast.Name(id="SGGET", ctx=ast.Load()), n)
+                return self.generic_visit(n)
+
+            def visit_Subscript(self, n):
+                if "H-M" in str(const_value(n.slice)):
+                    return ast.copy_location(ast.Name(id="SG", ctx=ast.Load()), n)
+                return self.generic_visit(n)
+
+            def visit_Compare(self, n):
+                if len(n.ops) == 1 and isinstance(n.ops[0], (ast.In, ast.NotIn)) and "H-M" in str(const_value(n.left)) and isinstance(n.comparators[0], ast.Name):
+                    e_ = ast.Name(id="HAS", ctx=ast.Load())
+                    return ast.copy_location(e_ if isinstance(n.ops[0], ast.In) else ast.UnaryOp(op=ast.Not(), operand=e_), n)
+                return self.generic_visit(n)
+        gsp = [(_AbsSG().visit(_copy.deepcopy(expand(r, t_))), pol_) for t_, pol_, k_ in norm_guards(r, s) if "H-M" in ast.unparse(expand(r, t_))]
+        try:
+            bad = []
+            for has in (True, False):
+                for sg in ("P1", "P 1", "P 21/c", "Fm-3m"):
+                    env_ = {"HAS": has, "SG": sg, "SGGET": sg if has else None}
+                    taken = all(bool(eval_small(t_, env_)) == pol_ for t_, pol_ in gsp)
+                    want = has and sg not in ("P1", "P 1")
+                    if taken != want:
+                        bad.append((has, sg))
+            sem_p1 = (not bad, bad[:1])
+        except Undecidable:
+            sem_p1 = None
+    if sem_p1 is not None:
+        okp, ex = sem_p1
+        obs.append(Ob("E2", clause, r, p1[0], okp,
+                      "a declared space group other than P1 / P 1 raises%s" % ("" if okp else ": WRONG for tag present=%s, space group %r" % ex[0]),
+                      slot="non-p1-rejected", positive="robust" if not okp else False))
+    else:
+        obs.append(Ob("E2", clause, r, p1[0] if p1 else r.node, ok, "a declared space group other than P1 / P 1 raises", slot="non-p1-rejected"))
     # torsion block: dihedrals then impropers
     exts = [c for c in calls_in(w) if isinstance(c.func, ast.Attribute) and c.func.attr == "extend" and c.args and is_self_attr(c.args[0])]
     order = [c.args[0].attr for c in exts]
@@ -1331,6 +1475,15 @@ def E_bond_cutoff(repo, clause):
             la = affine(lower) if lower is not None else None
             rest = {k: v for k, v in a.items() if k != inner_i}
             aff_ok = la is not None and rest == la and la.get(idx1) == 1 and la.get("", 0) == 1
+    # enumerate(arr[lo:], start=lo): the loop counter already is the second index
+    st_ = kwarg(i.iter, "start") if isinstance(i.iter, ast.Call) else None
+    if st_ is None and isinstance(i.iter, ast.Call) and len(i.iter.args) > 1:
+        st_ = i.iter.args[1]
+    if idx2 is None and st_ is not None and lower is not None:
+        la, sa = affine(expand(fn, lower)), affine(expand(fn, st_))
+        if la is not None and sa is not None and la == sa:
+            idx2 = inner_i
+            aff_ok = la.get(idx1) == 1 and la.get("", 0) == 1
     obs.append(Ob("E7", clause, fn, i, aff_ok and same_arr,
                   "inner loop runs over the suffix [%s:] of the same array and the second index is rebuilt as inner index + %s (each unordered pair once, i<j)"
                   % (ast.unparse(lower) if lower is not None else "?", ast.unparse(lower) if lower is not None else "?"), slot="pair-once"))
